@@ -7,7 +7,7 @@ CONSTANTS
   Cap = 2
   MaxNow = 1
   Budget = 2
-  MaxExt = 3
+  MaxExt = 2
   MaxSel = 3
   MaxSpur = 1
   Base0 = {}
